@@ -14,7 +14,7 @@ from mtblcheck import bits as B
 from mtblcheck import memmodel as M
 
 U = "mtbl/block_builder.c"
-SEQS = [[(1, 0)], [(0, 0)], [(2, 3), (2, 1)], [(1, 1), (3, 0), (1, 2)]]
+SEQS = [[(1, 0)], [(0, 0)], [(2, 3), (2, 1)], [(1, 1), (3, 0), (1, 2)], [(1, 20)], [(18, 0), (19, 17)]]
 
 
 def _field(s, obj, name):
